@@ -122,10 +122,11 @@ pub(crate) mod verif_event {
             // ================= oracles after every operation =================
             oracle!(p, P14, ev.is_set() == is_set, "C14 event: is_set() differs from the last set/reset");
             let now = [c0a.n(), c0b.n(), c1a.n(), c1b.n(), c2a.n(), c2b.n()];
-            if op != 9 {
+            if op == 10 {
+                // (the statement forbids wake-ups by reset(); spurious wake-ups by other operations are not excluded by it)
                 let mut j = 0;
                 while j < 6 {
-                    oracle!(p, P14, now[j] == before[j], "C14 event: a waker was woken by something else than set()");
+                    oracle!(p, P14, now[j] == before[j], "C14 event: reset() woke a waiter");
                     j += 1;
                 }
             }
